@@ -345,6 +345,10 @@ fn main() {
                         cases.push(gen_shared_family(&mut rng));
                         continue;
                     }
+                    2 => {
+                        cases.push(gen_neg_order_family(&mut rng));
+                        continue;
+                    }
                     _ => {}
                 }
                 let (p, tags) = gen_program(&mut rng, &gcfg);
@@ -481,6 +485,17 @@ fn main() {
                 corpus().into_iter().map(|(p, e, tag)| (p, e, vec!["corpus", tag])).collect();
             let gcfg = GenCfg::default();
             while cases.len() < args.n {
+                match rng.below(8) {
+                    0 => {
+                        cases.push(gen_neg_order_family(&mut rng));
+                        continue;
+                    }
+                    1 => {
+                        cases.push(gen_bound_rec_family(&mut rng));
+                        continue;
+                    }
+                    _ => {}
+                }
                 let (p, tags) = gen_program(&mut rng, &gcfg);
                 let edb = gen_edb(&mut rng, tags.contains(&"strings"));
                 cases.push((p, edb, tags));
